@@ -1,7 +1,62 @@
 --------------------------- MODULE Known_PoolConc ---------------------------
 (* Named deviation actions for the recorded known findings of property C08.      *)
 EXTENDS PoolOwnership, TLC
-KnownIds == {}
-DevApplies(id, e, subj) == FALSE
-KnownDeviation(id, e, subj) == FALSE /\ UNCHANGED <<owner, seen, nodes>>
+
+VARIABLE shared   \* KF1 only: <<offset, thread>> pairs - further threads holding an offset that another thread owns
+
+KnownIds == {"C08-KF1", "C08-KF2", "C08-KF3"}
+
+(* C08-KF1 (the C07-KF11 defect seen by concurrent users): the five-level ThreadLocalPool hands out  *)
+(* offsets relative to the arena of the CALLING thread in the one MemOffset space of the pool, so   *)
+(* two threads hold the same MemOffset at the same time.  Guard: subject family tl5 only; an        *)
+(* allocation whose offset is owned by a DIFFERENT thread and is not yet held by this thread, or     *)
+(* the free of such an extra holding by the thread that got it.  A second holding by the same       *)
+(* thread, a free by a thread that holds nothing, counters and the drain stay under the contract.   *)
+G1(e, subj) ==
+    /\ subj.fam = "tl5"
+    /\ \/ /\ e.op = "alloc" /\ e.ok
+          /\ e.addr \in DOMAIN owner /\ owner[e.addr] /= e.t /\ <<e.addr, e.t>> \notin shared
+       \/ /\ e.op = "free_start" /\ <<e.addr, e.t>> \in shared
+          /\ ~(e.addr \in DOMAIN owner /\ owner[e.addr] = e.t)
+KF1(e, subj) ==
+    IF e.op = "alloc"
+    THEN /\ shared' = shared \cup {<<e.addr, e.t>>}
+         /\ cnt' = [cnt EXCEPT !.na = @ + 1]
+         /\ UNCHANGED <<owner, seen, nodes, big>>
+    ELSE /\ shared' = shared \ {<<e.addr, e.t>>}
+         /\ cnt' = [cnt EXCEPT !.nf = @ + 1]
+         /\ UNCHANGED <<owner, seen, nodes, big>>
+
+
+Without(c, f) == [x \in DOMAIN c \ {f} |-> c[x]]
+
+(* C08-KF2: FixedCapacityMemoryPool::deallocate pushes the block on its free list BEFORE it       *)
+(* decrements active_blocks; an allocate of another thread pops that block and increments first,  *)
+(* so active_blocks (and with it peak_blocks) transiently counts one block twice: a pool of cap    *)
+(* blocks reports a peak above cap.  Guard: family fcp, the counters event, peak above the         *)
+(* capacity by at most one per other thread; every other counter stays under the contract.         *)
+G2(e, subj) ==
+    /\ subj.fam = "fcp" /\ e.op = "counters"
+    /\ "peak" \in DOMAIN e.c /\ "cap" \in DOMAIN subj /\ "threads" \in DOMAIN subj
+    /\ subj.cap > 0 /\ e.c.peak > subj.cap /\ e.c.peak < subj.cap + subj.threads
+KF2(e, subj) == Counters(Without(e.c, "peak"), subj.cap)
+
+(* C08-KF3: MemoryPool keeps `allocated` under a RwLock that it only try_write()s: under          *)
+(* contention the update is skipped, so after all threads have finished allocated differs from    *)
+(* chunk size * (cached + owned chunks).  Guard: family basic, the counters event, exactly that    *)
+(* relation broken; every other counter stays under the contract.                                  *)
+G3(e, subj) ==
+    /\ subj.fam = "basic" /\ e.op = "counters"
+    /\ {"allocated", "csz", "chunks"} \subseteq DOMAIN e.c
+    /\ e.c.allocated /= e.c.csz * (e.c.chunks + Cardinality(DOMAIN owner))
+KF3(e, subj) == Counters(Without(e.c, "allocated"), 0)
+
+DevApplies(id, e, subj) ==
+    \/ id = "C08-KF1" /\ G1(e, subj)
+    \/ id = "C08-KF2" /\ G2(e, subj)
+    \/ id = "C08-KF3" /\ G3(e, subj)
+KnownDeviation(id, e, subj) ==
+    \/ id = "C08-KF1" /\ G1(e, subj) /\ KF1(e, subj)
+    \/ id = "C08-KF2" /\ G2(e, subj) /\ KF2(e, subj) /\ shared' = shared
+    \/ id = "C08-KF3" /\ G3(e, subj) /\ KF3(e, subj) /\ shared' = shared
 =============================================================================
